@@ -131,5 +131,31 @@ def run(res, replay=None):
                 break
     finally:
         db.destroy()
+    # tables whose first heap pages have become empty (every row deleted) and completely empty tables: the scans walk over empty pages
+    db = DB(mem_kb=400)
+    try:
+        if db.open().startswith("ok"):
+            db.cmd("mktable e1 k:i:n,v:s:n"); db.sql("CREATE TABLE e2(k int, v varchar(255));")
+            for i in range(70):
+                db.cmd("rawinsert e1 i:%d s:%s" % (i, (b"e" * 230).hex()))
+                db.cmd("rawinsert e2 i:%d s:%s" % (i, (b"f" * 230).hex()))
+            stmts = ["DELETE FROM e1 WHERE k < 40;", "SELECT k FROM e1 WHERE k = 50 OR k = 51;", "SELECT k FROM e1 WHERE k >= 0 OR k >= 0;", "UPDATE e1 SET v = 'short' WHERE k = 60 OR k = 60;",
+                     "DELETE FROM e2 WHERE k < 35 OR k < 35;", "SELECT k FROM e2 WHERE k = 50;", "SELECT k FROM e2 WHERE k >= 0 OR k >= 0;", "SELECT e1.k, e2.k FROM e1 JOIN e2 ON e1.k = e2.k;",
+                     "INSERT INTO e1(k,v) VALUES (500, 'x');", "DELETE FROM e1 WHERE k >= 0 OR k >= 0;", "SELECT k FROM e1 WHERE k >= 0 OR k >= 0;", "SELECT e1.k, e2.k FROM e1 JOIN e2 ON e1.k = e2.k;",
+                     "INSERT INTO e1(k,v) VALUES (501, 'y');", "SELECT k FROM e1 WHERE k = 501 OR k = 501;", "DELETE FROM e2 WHERE k >= 0;", "SELECT k FROM e2 WHERE k >= 0 OR k >= 0;", "UPDATE e2 SET v = 'z' WHERE k = 3;"]
+            for sql in stmts:
+                shape = db.cmd("plan " + sql)
+                before = db.cmd("pins")
+                out = db.sql(sql)
+                after = db.cmd("pins")
+                res.evaluations += 1
+                cls = "%s|%s|%s|empty-pages" % (sql.split()[0], shape[3:] if shape.startswith("ok:") else shape, out.split(":")[0])
+                classes[cls] = classes.get(cls, 0) + 1
+                res.note_case(cls, True)
+                if db.dead or before != after:
+                    res.oracle_failures.append(("# session:\n" + "\n".join(l[:100] for l in db.log[-45:]), "statement on a table with emptied pages leaves frames pinned: %s (plan %s, outcome %s): pins before %s | after %s" % (sql, shape, out[:40] if not db.dead else db.dead, before, after)))
+                    break
+    finally:
+        db.destroy()
     res.distribution = {"classes": classes}
     res.samples = sorted(classes.keys())[:8]
